@@ -304,7 +304,101 @@ def _pushpop_spec(which, fn):
                  doc=f"one iteration of the loop of `{which}_states` (`continue` = `return`)")
 
 
-FUNCTIONS = ["get", "set", "unset", "check", "push", "pop"]
+# ---------------------------------------------------------------------------------------------------------------------
+# `_state_check_chain(do, env, params_obj_type, params_obj_name, state_params)`: one definition per value of `do`
+
+CHAIN_ARGS = ["do", "env", "params_obj_type", "params_obj_name", "state_params"]
+
+
+class _Specialise(ast.NodeTransformer):
+    """partial evaluation for a constant value of the parameter `do`: every read of the name becomes the string constant,
+    an f-string all of whose parts are then constants (no conversion, no format spec) becomes the constant it builds.
+    Nothing else is folded: `if "get" == "set":` stays a test in the generated Lean."""
+
+    def __init__(self, value):
+        self.value = value
+
+    def visit_Name(self, n):
+        if n.id == "do":
+            if not isinstance(n.ctx, ast.Load):
+                raise Unsupported(f"_state_check_chain:{n.lineno}: the parameter `do` is assigned")
+            return ast.copy_location(ast.Constant(value=self.value), n)
+        return n
+
+    def visit_JoinedStr(self, n):
+        self.generic_visit(n)
+        parts = []
+        for v in n.values:
+            if isinstance(v, ast.Constant) and isinstance(v.value, str):
+                parts.append(v.value)
+            elif isinstance(v, ast.FormattedValue) and v.conversion == -1 and v.format_spec is None \
+                    and isinstance(v.value, ast.Constant) and isinstance(v.value.value, str):
+                parts.append(v.value.value)
+            else:
+                return n
+        return ast.copy_location(ast.Constant(value="".join(parts)), n)
+
+
+def chain_function(tree, do):
+    """the synthetic FunctionDef `_state_check_chain(env, params_obj_type, params_obj_name, state_params)` for do = `do`"""
+    fname = "_state_check_chain"
+    fn = pygen.find_function(tree, fname)
+    a = fn.args
+    if [x.arg for x in a.args] != CHAIN_ARGS or a.vararg or a.kwarg or a.kwonlyargs or a.posonlyargs or a.defaults:
+        raise Unsupported(f"{fname}: signature is not ({', '.join(CHAIN_ARGS)})")
+    body = list(fn.body)
+    if body and isinstance(body[0], ast.Expr) and isinstance(body[0].value, ast.Constant) \
+            and isinstance(body[0].value.value, str):
+        body = body[1:]
+    pinned = {pygen.norm_block(ZIP_LOOP)}
+    for s in body:
+        for n in ast.walk(s):
+            if isinstance(n, (ast.For, ast.While)) and pygen.dump_stmts([n]) in pinned:
+                continue
+            if isinstance(n, (ast.For, ast.While, ast.AsyncFor, ast.Break, ast.Continue, ast.Try, ast.With, ast.AsyncWith,
+                              ast.Yield, ast.YieldFrom, ast.Await, ast.Lambda, ast.FunctionDef, ast.ClassDef, ast.Global,
+                              ast.Nonlocal, ast.Delete, ast.NamedExpr, ast.Raise)):
+                raise Unsupported(f"{fname}:{getattr(n, 'lineno', '?')}: {type(n).__name__} in the body")
+            if isinstance(n, ast.Name) and n.id == "state_params" and not isinstance(n.ctx, ast.Load):
+                raise Unsupported(f"{fname}:{n.lineno}: the body rebinds state_params")
+    rw = _Rewrite(fname, False)
+    sp = _Specialise(do)
+    new_body = []
+    for s in body:
+        if isinstance(s, ast.For) and pygen.dump_stmts([s]) in pinned:
+            new_body.append(copy.deepcopy(s))
+        else:
+            new_body.append(rw.visit(sp.visit(copy.deepcopy(s))))
+    args = ast.arguments(posonlyargs=[], args=[ast.arg(arg=x) for x in CHAIN_ARGS[1:]], kwonlyargs=[], kw_defaults=[],
+                         defaults=[])
+    new = ast.FunctionDef(name=fname, args=args, body=new_body, decorator_list=[], returns=None, type_comment=None)
+    try:
+        new.type_params = []
+    except Exception:
+        pass
+    return ast.fix_missing_locations(ast.copy_location(new, fn))
+
+
+def _chain_spec(do, fn):
+    stmts = {ZIP_LOOP: "zipSetM composite_types composite_names",
+             'state_params.__setitem__("states_chain", composite_types[-1])':
+                 'setP "states_chain" (composite_types.getLast?.getD "")'}
+    # `state_params["<do>_location"]` is read only behind the truthiness test of the same key
+    atoms = {f'state_params["{do}_location"]': (f'rd (fun sp => sp.getD {_ls(do + "_location")} "")', "str", "reads")}
+    calls = {"check_states(_1, _2)": ("checkStatesM B", "bool", "raises", ["_", "_"])}
+    a, c = schema(fn)
+    a.update(atoms)
+    c.update(calls)
+    return Spec(f"genChain{do.capitalize()}",
+                binders=[("B", "Backends"), ("params_obj_type", "String"), ("params_obj_name", "String")],
+                params={"env": None, "params_obj_type": ("params_obj_type", "str"),
+                        "params_obj_name": ("params_obj_name", "str"), "state_params": None},
+                ret="bool", monad="M", atoms=a, calls=c, raises=[], ignored_calls=LOGS, stmts=stmts, prims=PRIMS,
+                doc=f"`_state_check_chain(\"{do}\", env, params_obj_type, params_obj_name, state_params)` of "
+                    "avocado_i2n/states/setup.py (the parameter `do` specialised by the front end)")
+
+
+FUNCTIONS = ["get", "set", "unset", "check", "push", "pop", "chain_get", "chain_set", "chain_unset"]
 
 
 def _translate(tree, which):
@@ -315,7 +409,11 @@ def _translate(tree, which):
     if which == "check":
         fn = iteration_function(tree, "check_states", True)
         return pygen.translate(fn, _check_spec(fn), consts)
-    fn = iteration_function(tree, f"{which}_states", False, pinned_loops=[ZIP_LOOP])
+    if which.startswith("chain_"):
+        do = which[len("chain_"):]
+        fn = chain_function(tree, do)
+        return pygen.translate(fn, _chain_spec(do, fn), consts)
+    fn =iteration_function(tree, f"{which}_states", False, pinned_loops=[ZIP_LOOP])
     return pygen.translate(fn, _pushpop_spec(which, fn), consts)
 
 
